@@ -217,3 +217,91 @@ Proof.
   - exfalso. exact (Hng g eq_refl).
   - eexists. left. exists p. apply recover_free; auto. rewrite Hd. exact I.
 Qed.
+
+(* ---------- images with parts still pending ---------- *)
+(* The interrupted attempt's pending parts resolve sooner or later (the network fails or settles every HTLC by its expiry):
+   [res i] is how part i resolves. The schedule below lets that happen before the next funded set arrives. *)
+Fixpoint resolve_with (res : nat -> pstat) (k : nat) (ps : list pstat) : list pstat :=
+  match ps with [] => [] | PPend :: r => res k :: resolve_with res (S k) r | st :: r => st :: resolve_with res (S k) r end.
+Fixpoint resolve_events (res : nat -> pstat) (k : nat) (ps : list pstat) : list event :=
+  match ps with [] => [] | PPend :: r => EvPart k (res k) :: resolve_events res (S k) r | _ :: r => resolve_events res (S k) r end.
+Definition res_ok (res : nat -> pstat) : Prop := forall i, res i <> PPend.
+
+Lemma upd_app_len {A} (pre : list A) x y r : upd (length pre) x (pre ++ y :: r) = pre ++ x :: r.
+Proof. induction pre as [|z pre IH]; cbn [length app upd]; [reflexivity|]. rewrite IH. reflexivity. Qed.
+
+Lemma run_app c s a b : run c s (a ++ b) = let '(s1, o1) := run c s a in let '(s2, o2) := run c s1 b in (s2, o1 ++ o2).
+Proof.
+  revert s; induction a as [|e a IH]; intros s; cbn [app run].
+  - destruct (run c s b) as [s2 o2]. reflexivity.
+  - destruct (step c s e) as [s1 o]. rewrite IH. destruct (run c s1 a) as [s1' o1]. destruct (run c s1' b) as [s2 o2]. reflexivity.
+Qed.
+
+Lemma resolve_run c t0 h0 a0 res : res_ok res -> forall ps n pre, parts n = pre ++ ps ->
+  run c (sys_start n t0 h0 a0) (resolve_events res (length pre) ps) =
+  (sys_start (set_parts n (pre ++ resolve_with res (length pre) ps)) t0 h0 a0, map (fun _ => []) (resolve_events res (length pre) ps)).
+Proof.
+  intros Hres ps. induction ps as [|st ps IH]; intros n pre Hp.
+  - cbn [resolve_events resolve_with run map]. rewrite <- Hp. destruct n; reflexivity.
+  - assert (Hlen : forall x : pstat, length (pre ++ [x]) = S (length pre)) by (intros x; rewrite app_length; cbn; lia).
+    destruct st as [|pr|].
+    + (* pending: one EvPart *)
+      cbn [resolve_events resolve_with run map].
+      assert (Hstep : step c (sys_start n t0 h0 a0) (EvPart (length pre) (res (length pre)))
+                      = (sys_start (set_parts n (pre ++ res (length pre) :: ps)) t0 h0 a0, [])).
+      { cbn [step sys_start nd]. rewrite Hp. rewrite nth_error_app2 by lia. rewrite Nat.sub_diag. cbn [nth_error].
+        rewrite upd_app_len. destruct (res (length pre)) eqn:Er; [exfalso; exact (Hres _ Er)|reflexivity|reflexivity]. }
+      rewrite Hstep.
+      specialize (IH (set_parts n (pre ++ res (length pre) :: ps)) (pre ++ [res (length pre)])).
+      rewrite Hlen in IH. rewrite IH by (cbn [set_parts parts]; rewrite <- app_assoc; reflexivity).
+      cbn [set_parts parts ds atts payrun]. rewrite <- app_assoc. reflexivity.
+    + cbn [resolve_events resolve_with]. specialize (IH n (pre ++ [PDone pr])). rewrite Hlen in IH.
+      rewrite IH by (rewrite <- app_assoc; exact Hp). rewrite <- app_assoc. reflexivity.
+    + cbn [resolve_events resolve_with]. specialize (IH n (pre ++ [PFailed])). rewrite Hlen in IH.
+      rewrite IH by (rewrite <- app_assoc; exact Hp). rewrite <- app_assoc. reflexivity.
+Qed.
+
+Lemma resolve_with_no_pend res : res_ok res -> forall ps k i, nth_error (resolve_with res k ps) i <> Some PPend.
+Proof.
+  intros Hres ps. induction ps as [|st ps IH]; intros k i; cbn [resolve_with]; [destruct i; discriminate|].
+  destruct st; destruct i as [|i]; cbn [nth_error]; try apply IH; try discriminate.
+  intros H; inversion H as [H1]. exact (Hres _ H1).
+Qed.
+
+(* a part that is not failed after the resolution was not failed before either *)
+Lemma resolve_with_busy res ps : forall k i st, nth_error (resolve_with res k ps) i = Some st -> st <> PFailed ->
+  exists st0, nth_error ps i = Some st0 /\ st0 <> PFailed.
+Proof.
+  induction ps as [|s0 ps IH]; intros k i st; cbn [resolve_with]; [destruct i; discriminate|].
+  destruct s0; destruct i as [|i]; cbn [nth_error]; intros H Hn; try (eapply IH; eassumption).
+  - exists PPend. split; [reflexivity|discriminate].
+  - inversion H; subst. eexists; split; [reflexivity|discriminate].
+  - inversion H; subst. congruence.
+Qed.
+
+(* umbrella without the "no part pending" hypothesis: however the pending parts of the interrupted attempt resolve, the
+   environment that lets them resolve and then cooperates settles a funded set (or, for an aged interrupted attempt with
+   nothing completed, fails it once and leaves the record Free) *)
+Theorem never_wedged_pending c n t0 h0 a0 h (p : list N) (res : nat -> pstat) :
+  funded c h -> mpp_ms c <> 0 -> node_ok n -> res_ok res ->
+  mem_att a0 (atts n) = false -> (forall a t g, ds n = Some (DPending a t, g) -> a0 <> a) ->
+  exists evs,
+    (exists p', In [OResp (hid h) (Resolve p')] (map resps (snd (run c (sys_start n t0 h0 a0) evs)))) \/
+    (In [OResp (hid h) r_tramp_fail] (map resps (snd (run c (sys_start n t0 h0 a0) evs))) /\
+     free_view (ds (nd (fst (run c (sys_start n t0 h0 a0) evs)))) /\
+     parts (nd (fst (run c (sys_start n t0 h0 a0) evs))) = resolve_with res 0 (parts n)).
+Proof.
+  intros Hf Hm Hn Hres Hfresh Hatt.
+  set (n' := set_parts n (resolve_with res 0 (parts n))).
+  assert (Hn' : node_ok n').
+  { destruct Hn as (Hp0 & Hwa & Hng). split; [exact Hp0|]. split; [|exact Hng].
+    intros (i & st & Hi & Hst). apply Hwa. destruct (resolve_with_busy res (parts n) 0%nat i st Hi Hst) as (st0 & H0 & H1). exists i, st0. split; assumption. }
+  destruct (never_wedged c n' t0 h0 a0 h p Hf Hm Hn' (resolve_with_no_pend res Hres (parts n) 0%nat) Hfresh Hatt) as [evs Hevs].
+  exists (resolve_events res 0 (parts n) ++ evs).
+  pose proof (resolve_run c t0 h0 a0 res Hres (parts n) n [] eq_refl) as Hrun. cbn [length app] in Hrun. fold n' in Hrun.
+  rewrite run_app, Hrun. destruct (run c (sys_start n' t0 h0 a0) evs) as [s2 o2] eqn:E2. cbn [fst snd] in *.
+  rewrite map_app.
+  destruct Hevs as [[p' Hin]|(Hin & Hfv & Hparts)].
+  - left. exists p'. apply in_or_app. right. exact Hin.
+  - right. split; [apply in_or_app; right; exact Hin|]. split; [exact Hfv|exact Hparts].
+Qed.
